@@ -21,7 +21,12 @@ def type_filter(a):
 def run(tier, a=None):
     res = common.Result("C06", tier)
     cfgs = select_cfgs(tier, a)
-    runner.run_families(res, cfgs, ["bitcount"], type_filter(a))
+    runner.run_families(res, cfgs, ["bitcount"], type_filter(a), keytag="value")
+    # E4: width-1 vectors on IR that no UB-exploiting pass has touched
+    tf0 = type_filter(a)
+    scal = [c for c in cfgs if c.name in ("none", "scalar_all", "X86", "POPCNT", "LZCNT", "BMI", "BMI2")]
+    runner.run_families(res, scal, ["bitcount"], lambda vt, cfg: vt.n == 1 and (tf0 is None or tf0(vt, cfg)),
+                        override="judge_ub", keytag="ub", ubmode=True)
     res.trusted = ["clang 14 front end and -O2 pipeline preserve the meaning of UB-free executions",
                    "LLVM LangRef: add/sub/mul without nsw/nuw are arithmetic modulo 2^n per lane"]
     return common.finish(res, explanation="every integer vector type x configuration x "
